@@ -167,6 +167,26 @@ def pchip_oracle(ctx, case, out, grad):
         dmax = max(abs(b) for b in direction) or 1.0
         gs = max(1.0, max(abs(g) for g in grad)) * dmax
         tolfd = 1e-5 * gs * max(1.0, sum(abs(c) for c in w))
+        ad = sum(g * b for g, b in zip(grad, direction))
+        if list(direction) == list(y):
+            # PCHIP is homogeneous of degree 1 in the data (C20, scale equivariance): the derivative along y itself is the
+            # value of the loss, exactly - no difference quotient needed (a quotient along y perturbs an increment dy by
+            # eps*dy, which for small increments is below the rounding of y: a false alarm of this oracle was traced to that)
+            FDSTAT["euler"] = FDSTAT.get("euler", 0) + 1
+            exact = sum(float(a) * c for a, c in zip(pchip_forward(x, y, q), w))
+            if abs(exact - ad) > 1e-9 * gs * max(1.0, sum(abs(c) for c in w)):
+                ctx.violation(f"PCHIP1D gradient along '{dname}' (the data itself) is {ad!r} but homogeneity of degree 1 gives "
+                              f"the loss value {exact!r}",
+                              {"case": case, "finding_key": "pchip-gradient-wrong", "kind": "pchip", "direction": dname})
+                return
+            continue
+        # the quotient must resolve the change of every increment of the data: eps*|b[i+1]-b[i]| is either exactly zero or
+        # far above the rounding of y (1e6 ulp), otherwise the perturbed secants are rounding noise
+        eps_small = 0.25 * eps0 / dmax
+        dinc = [eps_small * abs(direction[i + 1] - direction[i]) for i in range(len(direction) - 1)]
+        if any(0.0 < v < 1e-10 * scale for v in dinc):
+            FDSTAT["not-resolved"] = FDSTAT.get("not-resolved", 0) + 1
+            continue
         fds = []
         for eps in (eps0 / dmax, 0.25 * eps0 / dmax):
             yp = [a + eps * b for a, b in zip(y, direction)]
@@ -184,7 +204,6 @@ def pchip_oracle(ctx, case, out, grad):
             continue  # the difference quotient is not converged (curvature or rounding): no verdict from it
         FDSTAT["verdict"] += 1
         fd = fds[1]
-        ad = sum(g * b for g, b in zip(grad, direction))
         if abs(fd - ad) > tolfd:
             ctx.violation(f"PCHIP1D gradient along '{dname}' is {ad!r} but the central difference is {fd!r}",
                           {"case": case, "finding_key": "pchip-gradient-wrong", "kind": "pchip", "direction": dname})
@@ -633,7 +652,8 @@ def state_grad_bound(tol, steps):
     return 1e3 * steps * tol
 
 
-GRAD_ATOL = 1e-10   # 1e6 x binary64 rounding of an O(1) loss
+GRAD_ATOL = 1e-9    # 1e7 x binary64 rounding of an O(1) loss; the dense matrix_exp reference itself is only good to ~2e-10 on the
+                    # gradient (observed 1.8e-10 at Krylov tolerance 1e-13 on a 1-atom 4-step run: F-22, torch matrix_exp floor)
 TIGHT_TOL = 1e-13   # every case is also differentiated at this Krylov tolerance, where the bound is 1.8e-6 * steps
 
 
